@@ -15,6 +15,7 @@ ASSUMPTIONS = ["SciPy evaluates the hypergeometric cdf in doubles: cases where a
                "lower <= upper for tail levels in (0, 1/2] and nesting in the level are theorems (HGOrder.hypergeomCI_ordered, hg_lower_nested, "
                "hg_upper_nested, from the coupling inequality hyperCdf_succ_ge) and are also checked on the implementation"]
 CLS = [0.95, 0.9, 0.975, 0.5, 0.99, 0.8, 0.3, 0.05, 0.75, 0.875]
+EXT = [1 - 1e-9, 0.999999, 1 - 1e-12, 1 - 2.0 ** -40]      # levels so close to 1 that 1 - cl is far below the smallest tail of a small population
 ALTS = ["two-sided", "lower", "upper"]
 
 
@@ -65,7 +66,7 @@ def run(ctx):
     for N in range(1, NMAX + 1):
         for n in range(1, N + 1):
             for alt in ALTS:
-                cls = CLS if (ctx.thorough() or N <= 5) else ctx.rng.sample(CLS, 2)
+                cls = (CLS + EXT) if (ctx.thorough() or N <= 5) else ctx.rng.sample(CLS, 2) + ([ctx.rng.choice(EXT)] if ctx.rng.random() < 0.3 else [])
                 for cl in cls:
                     for x in range(0, n + 1):
                         starts = [None] + ([0, N, N // 2, x] if (ctx.thorough() or ctx.rng.random() < 0.25) else [])
@@ -126,7 +127,7 @@ def run(ctx):
         else:
             N = ctx.rng.choice([1000, 5000, 2**16 + 1, 2**20 - 1, 2**20 + 5, 1200000, 1500000, 3 * 10**6, 12345678])
             n = ctx.rng.randint(5, 60); x = ctx.rng.choice([0, 1, n, n - 1, ctx.rng.randint(0, n), ctx.rng.randint(0, n)])
-        cl = ctx.rng.choice(CLS); alt = ctx.rng.choice(ALTS); a = level(cl, alt)
+        cl = ctx.rng.choice(CLS + EXT[:2]); alt = ctx.rng.choice(ALTS); a = level(cl, alt)
         r = guarded(utils.hypergeom_conf_interval, n, x, N, cl, alt, secs=60)
         det = {"call": "hypergeom_conf_interval", "n": n, "x": x, "N": N, "cl": cl, "alternative": alt}
         ctx.case(("large", n, x, N, cl, alt), True, det); ctx.count("large-population")
